@@ -209,6 +209,9 @@ def to_val(pv, st=None):
     raise Unsupported(f'to_val({type(pv).__name__})')
 
 
+TRUTH_BY_CLASS = {}
+
+
 def truth(pv, st=None):
     """z3 Bool: Python truthiness"""
     if isinstance(pv, PConst):
@@ -221,7 +224,11 @@ def truth(pv, st=None):
         if pv.kind == 'int': return pv.z != 0
         if pv.kind == 'real': return pv.z != 0
         if pv.kind == 'str': return Length(pv.z) > 0
-        if pv.kind == 'ref': return BoolVal(True)
+        if pv.kind == 'ref':
+            h = TRUTH_BY_CLASS.get(pv.cls)          # classes that define __bool__ (contract given by the spec)
+            if h is not None and st is not None: return h(st, pv.z)
+            if h is not None: raise Unsupported(f'truth of a {pv.cls} object without a state')
+            return BoolVal(True)
     if isinstance(pv, PTuple): return BoolVal(len(pv.items) > 0)
     if isinstance(pv, PSeq): return pv.n > 0
     if isinstance(pv, PSet):
